@@ -68,13 +68,13 @@ def main(run):
     configs = [(3, l) for l in (1, 2, 3, 4, 5, 60)] + [(4, l) for l in range(1, 12)] + [(5, l) for l in ((1, 2) if quick else (1, 2, 3))]
     for n, l in configs:
         run.prove(f"constructor[n={n},limit={l}]", RS.sc_regret_constructor, {"n": n, "limit": l}, pkg=pkg)
-    iter_cfg = [(3, 1), (3, 2), (3, 3), (4, 1)] if quick else [(3, 1), (3, 2), (3, 3), (4, 1), (4, 2)]
+    # limits beyond the number of viable coalitions (3 at n=3) are part of 'every reveal limit >= 1'
+    iter_cfg = [(3, 1), (3, 2), (3, 3), (3, 4), (4, 1)] if quick else [(3, 1), (3, 2), (3, 3), (3, 4), (3, 7), (4, 1), (4, 2)]
     for n, l in iter_cfg:
         for plus in (False, True):
             p = {"n": n, "limit": l, "plus": plus}
-            nodes = sum(1 for _ in __import__("itertools").chain.from_iterable(
-                __import__("itertools").combinations(range((1 << n) - n - 2), k) for k in range(min(l, (1 << n) - n - 2))))
-            for node in range(nodes):
+            rm_probe = pkg.mod("regret").GameRegretMinimizer(n, l, plus)
+            for node in range(rm_probe.number_of_regret_minimizers):
                 run.prove(f"strategies[n={n},limit={l},plus={plus},node={node}]", RS.sc_regret_strategies, dict(p, node=node), pkg=pkg)
             run.prove(f"iteration[n={n},limit={l},plus={plus}]", RS.sc_regret_iteration,
                       dict(p, orth=((n, l) in ((3, 1), (3, 2)) or (not quick and n == 3))), pkg=pkg, max_paths=70000)
@@ -82,7 +82,7 @@ def main(run):
                 run.prove(f"save_load[n={n},limit={l},plus={plus}]", RS.sc_regret_save_load, p, pkg=pkg)
     run.discharge()
     evals = fails = 0
-    for n, l in [(3, 1), (3, 2), (3, 3), (4, 1), (4, 2), (4, 3)] + ([] if quick else [(4, 5), (5, 1), (5, 2)]):
+    for n, l in [(3, 1), (3, 2), (3, 3), (3, 4), (3, 9), (4, 1), (4, 2), (4, 3)] + ([] if quick else [(4, 5), (4, 10), (4, 11), (5, 1), (5, 2)]):
         for plus in (False, True):
             evals += 1
             try:
